@@ -4,6 +4,7 @@
 #                                      each case lands in a different process with different
 #                                      neighbours); the per-case digests (all counters, shapes,
 #                                      abstract states, violations) must be identical
+# selftest.sh mutants [ids...]         same for the harness's own mutants in /verif/mutants
 # selftest.sh seeded [ids...]          applies each /verif/seeded/<id>/patch.diff to /repo, runs the
 #                                      check of the property it breaks (must exit 1), reverts
 set -u
@@ -39,5 +40,19 @@ case "$what" in
     done
     "$HERE/check" --build >/dev/null
     exit $rc ;;
-  *) echo "usage: selftest.sh determinism|seeded [...]"; exit 2 ;;
+  mutants)
+    # the harness's own deliberately broken variants (/verif/mutants/*.diff + .prop)
+    ids=("$@"); [ ${#ids[@]} -eq 0 ] && ids=($(ls "$HERE/mutants" | grep '\.diff$' | sed 's/\.diff$//'))
+    rc=0
+    for id in "${ids[@]}"; do
+      prop=$(cat "$HERE/mutants/$id.prop")
+      git -C /repo apply "$HERE/mutants/$id.diff" || { echo "mutant $id: patch does not apply"; rc=1; continue; }
+      out=$("$HERE/check" $prop quick 2>&1); code=$?
+      git -C /repo checkout -- .
+      if [ $code -eq 1 ]; then echo "mutant $id: caught by $prop ($(echo "$out" | grep -m1 '^  class' | cut -c3-110))"
+      else echo "mutant $id: NOT caught by $prop (exit $code)"; rc=1; fi
+    done
+    "$HERE/check" --build >/dev/null
+    exit $rc ;;
+  *) echo "usage: selftest.sh determinism|seeded|mutants [...]"; exit 2 ;;
 esac
